@@ -79,13 +79,7 @@ func runC20(p *P, r *R) {
 	}
 	r.ob("R20.1", "fillDataToReadBuffer: the goroutine is registered in the wait group before it is spawned", p.ipos(spawn), wgAdd, true, "close() waits on this group")
 	// readers are notified in any case
-	okNotify := false
-	for _, ci := range findInstrs(fd, p.mCall("asyncNotify")) {
-		if isLoadOf(ci.(*ssa.Call).Call.Args[0], "Stream.recvNotifyCh") {
-			okNotify = true
-		}
-	}
-	r.ob("R20.1", "fillDataToReadBuffer: blocked readers are notified of the arrival", p.pos(fd.Pos()), okNotify, true, "")
+	arrivalWakesReaders(p, r, "R20.1")
 
 	// ---- R20.2 inside the closure
 	clears := findInstrs(body, M{ID: "clear", F: func(in ssa.Instruction) bool {
@@ -271,5 +265,51 @@ func runC20(p *P, r *R) {
 			}
 		}
 		r.ob("R20.5", "SetCallbacks installs the callbacks only once", p.pos(sc.Pos()), ok, true, "")
+	}
+}
+
+// arrivalWakesReaders (R20.1 / R11.10): a reader — including a callback's own OnData blocked in ReadBytes/Peek for more
+// bytes than have arrived — sleeps in readMore on recvNotifyCh; the arrival routine must signal that channel on every
+// path that published a frame and found the stream not closed, whether or not callbacks are installed.
+func arrivalWakesReaders(p *P, r *R, rule string) {
+	fd := p.fn("(*Stream).fillDataToReadBuffer")
+	if fd == nil {
+		r.fail(rule, "anchor (*Stream).fillDataToReadBuffer", "", "not found")
+		return
+	}
+	notify := M{ID: "notify recvNotifyCh", F: func(in ssa.Instruction) bool {
+		if _, isGo := in.(*ssa.Go); isGo {
+			return false
+		}
+		cc := callCommon(in) // a call, or a `defer` (runs at every exit after this point)
+		return cc != nil && p.calleeName(cc) == "asyncNotify" && isLoadOf(cc.Args[0], "Stream.recvNotifyCh")
+	}}
+	isState := func(v ssa.Value) bool {
+		c, ok := v.(*ssa.Call)
+		if ok && p.calleeName(&c.Call) == "(*Stream).getStreamState" {
+			return true
+		}
+		if ok {
+			if a := p.atomicOp(c); a != nil && a.Op == "Load" && a.Word == "Stream.state" {
+				return true
+			}
+		}
+		return false
+	}
+	closedV, _ := p.pkgConstInt("streamClosed")
+	isClosed := func(v ssa.Value) bool { c, ok := constInt(v); return ok && c == closedV }
+	adds := findInstrs(fd, p.mCall("(*pendingData).add"))
+	r.count(rule, "arrival publications in fillDataToReadBuffer", len(adds), 1)
+	for _, a := range adds {
+		res := p.mustPass(fd, []Point{pointOf(a)}, func(in ssa.Instruction) bool { return p.evMust(in, notify, 2) },
+			func(b *ssa.BasicBlock, i int) bool {
+				ifi := blockIf(b)
+				if ifi == nil {
+					return true
+				}
+				return relOn(ifi.Cond, i == 0, isState, isClosed) != "==" // closed: the frame is dropped, nobody to wake
+			}, nil)
+		r.ob(rule, "fillDataToReadBuffer: blocked readers are notified of the arrival on every path (callbacks installed or not)", p.ipos(a), res.OK, true,
+			"an OnData blocked in a read for more bytes is woken only through recvNotifyCh: %s", p.pathString(res))
 	}
 }
